@@ -49,6 +49,33 @@ CLAIMED["C20"] = dict(
     note="Same trusted base as C01/C05. The full property is false on the unchanged tree; no small safe repair exists within the "
          "implicit-notify API (DESIGN §7), so it is a recorded finding, not a fix.")
 
+CLAIMED["C07"] = dict(
+    text="Lean 4 theorems over every reachable state of a model of Queue.add/push/extend/pop/pop_one/pop_all/len/close at the "
+         "granularity of mutex operations, every test of closed/till/len and every deque mutation, with arbitrary wake-ups: mutations "
+         "happen one at a time inside their call; without front pushes initial++appended = removed++contents (exact FIFO, nothing "
+         "lost or duplicated); with pushes every value's multiplicity is conserved; every popleft returns the head; pop(till) "
+         "returns None only on the timed-out path after its till fired and that path changes nothing.",
+    design="§5 C07", technique="Lean 4 inductive invariant (FIFO refinement ghosts) + trace acceptance of real Queue executions + independent FIFO replay monitor",
+    note="Trusted: Lean kernel + standard axioms; model Queue.lean tied to queues.py by trace acceptance under the deterministic "
+         "scheduler with the real Lock/Signal/OrSignal/Till underneath; the Lock's baton is an arbitrary environment move in the model "
+         "(no-loss liveness is C06). deque ops, `with`, logger.error raising are modelled, not verified. silent, non-unique queues.")
+CLAIMED["C08"] = dict(
+    text="Lean 4 theorems on the same model for every max and any number of producers/consumers: a non-forced add() appends only "
+         "with the queue closed or below max (so an open queue never exceeds max through add); a producer finding the open queue "
+         "full tests its give-up signal, raises with contents unchanged if it fired, parks otherwise; a woken producer re-tests "
+         "everything; a parked producer is enabled exactly by a signal or its own till with the mutex free. The check also found "
+         "and the tree now fixes the `till or Till()` defect (caller's till ignored).",
+    design="§5 C08", technique="Lean 4 invariant + trace acceptance + capacity/back-pressure monitors on real runs",
+    note="Same trusted base as C07. 'Not stranded when consumers keep popping' is the C06 L1 theorem on the Lock model plus the "
+         "enabledness theorem here; the composition is argued, not proved, in Lean.")
+CLAIMED["C09"] = dict(
+    text="Lean 4 theorems on the same model: closed is permanent; after close a pop still drains head-first and then gets the stop "
+         "marker; consumers already parked (or that had tested closed before close() ran) are enabled once closed and end with the "
+         "stop marker; L1: no consumer is parked in any quiescent state of a closed queue; non-forced add/push/extend on a closed "
+         "queue raise without enqueueing.",
+    design="§5 C09", technique="Lean 4 invariant + L1 quiescence theorem + trace acceptance + close monitors on real runs",
+    note="Same trusted base as C07.")
+
 PENDING = {}
 
 
